@@ -639,6 +639,7 @@ func (ex *Exec) openWAL(g *Gen, codecID uint64, segSize int) (*wal.WAL, error) {
 // into a violation and clearing the modelled lock state afterwards.
 func (ex *Exec) call(what string, fn func() error) (err error) {
 	defer ex.sim.OpEnd()
+	defer ex.g.flushDeletes()
 	defer func() {
 		if r := recover(); r != nil {
 			st := string(debug.Stack())
